@@ -12,6 +12,7 @@ CLAIMED = {
  "C09": ("fault_enumeration", "enumerated global-allocator refusal schedules x histories; per-call monitors (no panic in try_, failure changes nothing, bounded retries) and op-by-op twin comparison try_ vs infallible", "3/C09"),
  "C11": ("exploration", "drop ledger on the error value, closure-call counter, same-layout-again probe watched by the allocator ledger, shadow of blocks kept by the initialiser; systematic steering of the space left in the chunk", "3/C11"),
  "C12": ("exploration", "Allocator-contract shadow model (fit, alignment, prefix preserved, zeroed tail, no overlap, error leaves block intact) + differential allocator_api2 Vec/Box vs std on the global allocator; Miri + ASan", "3/C12"),
+ "C18": ("exploration", "counting monitors over the allocator event ledger and as_ptr(): capacity served without new chunk, chunk_capacity probes, reserved Vec/String capacity without move, explicit geometric-growth bounds at volumes 1e3..1e7", "3/C18"),
  "C10": ("exploration", "chunk iterators compared with ledger order/extents and with the shadow of live blocks; exact tiling oracle on uniform histories", "3/C10"),
 }
 NOT_YET = {}
